@@ -158,7 +158,7 @@ NOT_VERIFIED = ['returned numeric TYPES (int/Fraction/Decimal, never float) are 
 
 def generate(rng, tier):
     F = list(fams().values())
-    per = 14 if tier == 'quick' else 150
+    per = 14 if tier == 'quick' else 700
     for f in F:
         mults = SMALL_MULTIPLIERS if f.small_weights else MULTIPLIERS
         for t in range(per):
